@@ -64,6 +64,10 @@ func buildTable(f tableFeat, g *docGen) string {
 		if shortApplies && i == f.Rows-1 {
 			n--
 		}
+		if f.Header == "rowth" {
+			// a header cell in front of every row (key / value tables): columns are counted in td cells
+			rows[i] = append(rows[i], &cell{th: true, inner: g.words(1)})
+		}
 		for j := 0; j < n; j++ {
 			c := &cell{th: f.Header == "th" && i == 0, inner: g.words(1)}
 			rows[i] = append(rows[i], c)
@@ -84,14 +88,21 @@ func buildTable(f tableFeat, g *docGen) string {
 		case "loneAbbr":
 			first.inner = "<abbr>" + first.inner + "</abbr>"
 		}
+		descRole := ""
 		switch f.DescRole {
 		case "tableRole":
-			last.attrs += ` role="` + caseMix(r, pickS(r, "gridcell", "columnheader", "rowheader", "row", "rowgroup")) + `"`
+			descRole = ` role="` + caseMix(r, pickS(r, "gridcell", "columnheader", "rowheader", "row", "rowgroup")) + `"`
 		case "landmark":
-			last.attrs += ` role="` + caseMix(r, pickS(r, "main", "search", "banner", "contentinfo", "form", "application")) + `"`
+			descRole = ` role="` + caseMix(r, pickS(r, "main", "search", "banner", "contentinfo", "form", "application")) + `"`
 		}
-		if f.Nested {
-			last.inner += "<table><tr><td>" + g.words(1) + "</td></tr></table>"
+		if f.Nested && descRole != "" && r.Intn(2) == 0 {
+			// the descendant carrying the role is the nested table element itself
+			last.inner += "<table" + descRole + "><tr><td>" + g.words(1) + "</td></tr></table>"
+		} else {
+			last.attrs += descRole
+			if f.Nested {
+				last.inner += "<table><tr><td>" + g.words(1) + "</td></tr></table>"
+			}
 		}
 		switch f.Object {
 		case "embed":
